@@ -2,7 +2,7 @@
    i.e. check_case (the property on observables) accepts run_case's observable. *)
 From Coq Require Import List NArith ZArith Bool Arith Lia String.
 From TV Require Import Lib.Obs C43.Model C43.Model2 C43.Spec C43.Run
-  C43.ProofsStart C43.ProofsEscape C43.ProofsHeader C43.ProofsTotal C43.ProofsUrl C43.ProofsDate.
+  C43.ProofsStart C43.ProofsEscape C43.ProofsHeader C43.ProofsTotal C43.ProofsUtf8 C43.ProofsUrl C43.ProofsDate.
 Import ListNotations.
 Local Open Scope N_scope.
 
@@ -71,8 +71,10 @@ Proof.
     + destruct (parse_header (encode_header k ps)); reflexivity.
   - destruct (memN 92 s) eqn:E; [reflexivity|]. rewrite (re_unescape_no_backslash s E). apply obs_eqb_refl.
   - rewrite re_unescape_escape. apply obs_eqb_refl.
-  - unfold check_url_concat. destruct (url_in_scope u args) eqn:E; [|reflexivity].
-    destruct (url_in_scope_ok u args E) as [r Hr]. rewrite Hr. cbn [uc_obs ob]. apply url_concat_ok. exact Hr.
+  - unfold check_url_concat. destruct (url_in_scope u) eqn:E; [|reflexivity].
+    destruct (url_in_scope_cases u args E) as [[r [Hr He]]|[Hr He]]; rewrite Hr; cbn [uc_obs ob].
+    + apply url_concat_ok. exact Hr.
+    + rewrite He. reflexivity.
   - unfold date_obs. destruct (format_timestamp t) as [f|] eqn:Ef.
     + destruct (date_rt_min <=? t)%Z eqn:Et; [|reflexivity]. cbn [negb orb].
       apply Z.leb_le in Et. pose proof (format_some_in_range t f Ef) as Hr.
@@ -98,7 +100,7 @@ Example date_range_example : (date_rt_min <= 1359312200 <= date_max)%Z.
 Proof. unfold date_rt_min, date_max. lia. Qed.
 
 Example url_scope_example :        (* url_concat("http://example.com/foo?a=b", [("c","d")]) is in scope *)
-  url_in_scope [104;116;116;112;58;47;47;101;120;97;109;112;108;101;46;99;111;109;47;102;111;111;63;97;61;98] [([99],[100])] = true.
+  url_in_scope [104;116;116;112;58;47;47;101;120;97;109;112;108;101;46;99;111;109;47;102;111;111;63;97;61;98] = true.
 Proof. reflexivity. Qed.
 
 Example spec_ip_examples :
